@@ -44,6 +44,11 @@ def configs(tier, seed):
         cfgs.append(dict(backend=b, backoff='r10', n=2, messages=2, d=1, dd=2, menu={}, relay_pool=1, store_pool=1))
         cfgs.append(dict(backend=b, backoff='r10', n=2, messages=1, d=1, dd=3, menu={}, bounce='none'))
         cfgs.append(dict(backend=b, backoff='r10', n=2, messages=1, d=1, dd=3, menu={}, bounce_queue='separate'))
+        if b in ('dict', 'disk'):
+            # bounded store pool alone (redis/cloud park wait() in a store slot, so size 1 would accept nothing at all)
+            cfgs.append(dict(backend=b, backoff='r10', n=2, messages=2, d=1, dd=2 if q else 3, menu={}, store_pool=1))
+            cfgs.append(dict(backend=b, backoff='r10', n=2, messages=2, d=1, dd=2 if q else 3, menu={}, store_pool=2, relay_pool=1))
+            cfgs.append(dict(backend=b, backoff='r10', n=2, messages=1, d=1, dd=3, menu={}, bounce_queue='separate-real'))
         cfgs.append(dict(backend=b, backoff='r10', n=2, messages=1, d=1, dd=3, menu={}, senders={0: ''}))
         cfgs.append(dict(backend=b, backoff='r10', n=2, messages=0, prestored=1, d=1, dd=3, menu={}))
         cfgs.append(dict(backend=b, backoff='r10-20', n=1, messages=1, script=[['enqueue', 0], ['flush']], d=2, dd=3, menu=dict(per_recipient=False)))
@@ -75,6 +80,8 @@ def bounce_obligations(qw):
                 out.append(('failed-recipient-not-bounced', 'recipient %s of %s failed (%r) but no bounce was built for it' % (rcpt, qid, reply)))
             elif all(b['produced'] and not b['enqueued'] for b in recs):
                 out.append(('bounce-not-enqueued', 'bounce for %s of %s was built but never handed to the bounce queue' % (rcpt, qid)))
+            elif all(b['produced'] and not b.get('stored') for b in recs) and qw.cfg.get('fail_writes') is None:
+                out.append(('bounce-never-stored', 'bounce for %s of %s was handed to the bounce queue, whose enqueue() never wrote it' % (rcpt, qid)))
     return out
 
 
@@ -100,7 +107,8 @@ def signature(cfg, qw, kind):
         mech = 'multi-round-marking'
     return {'kind': kind, 'backend': cfg['backend'], 'exception': ','.join(errs) or 'none', 'relay': cfg.get('relay_kind', 'scripted'),
             'index_model': 'differs' if qw.index_model_differs else 'matches',
-            'partial_result': partial, 'second_round': rounds >= 2, 'mechanism': mech}
+            'partial_result': partial, 'second_round': rounds >= 2, 'mechanism': mech,
+            'blocked_at': getattr(qw, 'pool_blocked_at', '')}
 
 
 def run_conformance(cfg, res):
